@@ -45,9 +45,7 @@ def splitNl : List Char → List (List Char × Bool)
 
 /-- strip one trailing `\r` -/
 def stripCrEnd (l : List Char) : List Char :=
-  match l.reverse with
-  | '\r' :: r => r.reverse
-  | _ => l
+  if l.getLast? = some '\r' then l.dropLast else l
 
 /-- the `LinesMap` closure: a `\r` is stripped only in front of a stripped `\n` -/
 def lineOf (p : List Char × Bool) : List Char := if p.2 then stripCrEnd p.1 else p.1
